@@ -90,21 +90,29 @@ def plan(prop, tier):
         gens = [g(D=1, P=1, ops=maint_ops, big=400), g(D=1, P=2, ops=maint_ops, S=(1, 3, 7)),
                 g(D=2, P=2, ops=maint_ops), g(N=7, D=2, P=3, depth=14, ops=("submit", "clean"))]
         gens += [sc([G, G, G, G, "clean", "save", "load"], D=1, P=1), sc([G, G, G, G, "clean"], D=2, P=2, works=(1, 3)), sc([G, G, "clean", G, G, "clean"], D=4, P=1),
-                 sc([G, G, G, G, "clean", "save", "load"], D=1, P=1, works=(1,), ties=True)]
+                 sc([G, G, G, G, "clean", "save", "load"], D=1, P=1, works=(1,), ties=True),
+                 sc(["legacy", G, G, "clean", G], D=2, P=1),
+                 # a fork becomes the best chain because the competing header is marked invalid, is consolidated
+                 # and then pruned from memory
+                 sc([G, G, "mark", "clean", G, G, "clean"], D=4, P=1)]
     elif prop == "C10":
         exh = [("maint", 4, 1, 2, 1), ("maint", 4, 2, 2, 1)]
         gens = [g(D=1, P=2, ops=("submit", "clean"), big=400), g(D=2, P=2, ops=("submit", "clean"), S=(1, 3, 7)),
                 g(D=1, P=1, ops=("submit", "clean", "subscribe"), subs=1),
                 g(N=7, D=2, P=3, depth=14, ops=("submit", "clean"))]
         gens += [sc([G, G, G, G, "clean"]), sc([G, G, G, "clean", G, "clean"], D=1, P=1), sc([G, G, "clean", G, G, "clean"], works=(1, 3), P=2),
-                 sc([G, G, G, "clean", G, "clean"], D=2, P=2, works=(1,), ties=True)]
+                 sc([G, G, G, "clean", G, "clean"], D=2, P=2, works=(1,), ties=True),
+                 sc(["legacy", G, G, "clean", G, "clean"], D=2, P=1)]
     elif prop == "C11":
         exh = [("maint", 4, 1, 2, 1), ("mark", 3, 3, 2, 1)]
-        gens = [g(D=1, P=2, ops=maint_ops, big=400), g(D=2, P=3, ops=maint_ops, S=(1, 3, 7)),
+        gens = [g(D=1, P=2, ops=maint_ops, big=500), g(D=2, P=3, ops=maint_ops, S=(1, 3, 7)),
                 g(D=1, P=1, ops=("submit", "save", "load")),
                 g(D=6, P=6, ops=("submit", "save", "load", "mark"))]
         gens += [sc([G, G, G, G, "save", "load"]), sc([G, G, G, "save", "load", G, "save", "load"], D=1, P=1), sc([G, G, "clean", G, G, "save", "load"], works=(1, 3), P=2), sc([G, G, G, "mark", "save", "load", "submit"], lean=False),
-                 sc([G, G, G, "clean", G, "save", "load", G], D=2, P=2, works=(1,), ties=True)]
+                 sc([G, G, G, "clean", G, "save", "load", G], D=2, P=2, works=(1,), ties=True),
+                 # a store written before branches existed (version-0 files), or an empty store, is loaded first
+                 dict(sc(["legacy", G, G, "clean", "save", "load", G], D=2, P=2), big=400),
+                 sc(["legacy", G, "save", "load", G, "clean", G], D=4, P=1, S=(1, 7))]
     elif prop == "C12":
         exh = [("maint", 4, 1, 2, 1)]
         gens = [g(D=1, P=2, ops=("submit", "clean", "save", "reload"), flags=["-crash"], big=400),
@@ -120,7 +128,8 @@ def plan(prop, tier):
                 g(N=4, D=4, P=4, depth=8, ops=("submit", "mark", "clean", "save"), works=(1, 2, 3)),
                 g(N=5, D=5, P=5, depth=10, ops=("submit", "mark"))]
         gens += [sc([G, G, G, G, "clean", "mark", "save", "load"]), sc([G, G, G, G, "mark", "submit", "unmark", "submit"], lean=False), sc([G, G, G, "save", "mark", G, "save", "load"], works=(1, 3)),
-                 sc([G, G, G, G, "mark", "submit"], lean=False, works=(1,), ties=True)]
+                 sc([G, G, G, G, "mark", "submit"], lean=False, works=(1,), ties=True),
+                 sc([G, G, "mark", "clean", G, G, "clean"], D=4, P=1)]
     elif prop == "C19":
         exh = [("core", 4, 1, 2, 1)]
         gens = [g(D=1, P=2, ops=maint_ops, flags=["-probe"], S=(1, 3, 7)),
@@ -131,7 +140,7 @@ def plan(prop, tier):
     elif prop == "C18":
         exh = [("maint", 4, 1, 2, 1)]
         pf = ["-proofs"]
-        gens = [g(D=1, P=1, ops=maint_ops, flags=pf, S=(1, 3)), g(D=2, P=2, ops=maint_ops, flags=pf, works=(1, 3)),
+        gens = [g(D=1, P=1, ops=maint_ops, flags=pf, S=(1, 3)), g(D=2, P=2, ops=maint_ops, flags=pf, works=(1, 3), big=500),
                 g(D=6, P=6, ops=("submit", "mark", "clean", "save", "load"), flags=pf),
                 sc([G, G, G, G, "clean", "save", "load"], D=1, P=1, flags=pf),
                 sc([G, G, "clean", G, G], D=2, P=1, flags=pf, works=(1, 3)),
@@ -150,7 +159,7 @@ def generate(scratch, gc, s, idx):
     """One TLC run (random simulation, or BFS over a scripted scenario family) -> behaviour JSON strings."""
     if gc.get("script"):
         sc = gc["script"]
-        kinds = {"grow": "submit", "any": None}
+        kinds = {"grow": "submit", "any": None}  # "legacy" is its own operation kind
         ops = set(gc["ops"]) | {kinds.get(k, k) for k in sc if kinds.get(k, k)}
         ops.discard("unmark")
         if "unmark" in sc:
@@ -310,6 +319,11 @@ def run(prop, tier):
                 if locout and os.path.exists(locout):
                     loc_records.append(locout)
 
+        # 2b. C01 / C07 over schedules: concurrent peers, recorded calls linearized by TLC
+        conc = None
+        if prop in ("C01", "C07"):
+            conc = concurrent_leg(scratch, binary, res, prop, tier, sd)
+
         # 3. C19: the recorded locators and peer probes are judged by TLC
         loc_events = 0
         if prop == "C19":
@@ -387,6 +401,10 @@ def run(prop, tier):
         "other_property_signatures": other_sigs,
         "exhaustive": False,
     })
+    if conc:
+        res.coverage["concurrent_runs"] = conc
+        res.coverage["traces_validated_against_impl"] += conc["traces"]
+        res.coverage["evaluations"] += conc["traces"]
     if prop == "C12":
         res.coverage["crash_images"] = sum(h["crash_images"] for h in harness_stats)
         res.coverage["evaluations"] = res.coverage["crash_images"] + sum(h["behaviours"] for h in harness_stats)
@@ -400,6 +418,70 @@ def run(prop, tier):
         "only submissions whose outcome the properties dictate are generated (Dict guard: parent safely held or unknown)",
     ]
     return res.finish()
+
+
+def concurrent_leg(scratch, binary, res, prop, tier, sd):
+    """Several peers submit their chains concurrently (plus maintenance calls, plus a subscriber that is
+    either slightly slow or 10000 headers behind); TLC looks for a linearization of the recorded calls."""
+    from common import printed_tuples
+    quick = tier == "quick"
+    N = 4
+    gc = dict(N=N, D=N, P=N, subs=0, ops=(), works=(1, 2), lean=True, ties=True, script=["grow"] * N)
+    behs = generate(scratch, gc, sd * 1000 + 77, 77)
+    pools = os.path.join(scratch, "conc_pools.jsonl")
+    with open(pools, "w") as fh:
+        fh.write("\n".join(behs) + "\n")
+    lines = []
+    modes = [("plain", ["-per", "2" if quick else "6", "-pools", "150" if quick else "600", "-workers", "4"]),
+             ("stall", ["-stall", "-per", "2" if quick else "8", "-pools", "180" if quick else "600", "-workers", "6",
+                        "-rounds", "60"])]
+    for name, extra in modes:
+        tp = os.path.join(scratch, "conc_%s.ndjson" % name)
+        rc, o, err = run_harness(binary, ["hdrc", "-in", pools, "-out", tp, "-seed", str(sd)] + extra, timeout=3000)
+        if rc != 0:
+            raise Infra("hdrc (%s) failed: %s" % (name, err[-2000:]))
+        lines += [l for l in open(tp).read().splitlines() if l.strip()]
+    if not lines:
+        raise Infra("hdrc produced no traces")
+    out, st = run_tlc(scratch, "HeaderChainLin", cfg({"N": N, "Works": {1, 2}, "MaxDepth": 1000000, "P": 1000000, "MaxSubs": 1},
+                                                     spec="LSpec", invariants=["Emit"]),
+                      files={"trace.ndjson": "\n".join(lines) + "\n"}, workers=NCPU, timeout=2400, name="hclin")
+    if st.get("error") or st.get("violation") or "Model checking completed" not in out:
+        raise Infra("HeaderChainLin did not complete: %s\n%s" % (st, out[-2000:]))
+    ok = {t[1] for t in printed_tuples(out, "LINOK")}
+    ok_nostream = {t[1] for t in printed_tuples(out, "LINOKNS")}
+    overlaps = 0
+    other = 0
+    for i, l in enumerate(lines, 1):
+        t = json.loads(l)
+        c = t["calls"]
+        if any(c[j]["s"] < c[k]["e"] for k in range(len(c)) for j in range(k + 1, len(c))):
+            overlaps += 1
+        if i in ok:
+            continue
+        # the stream conjuncts belong to C07, everything else (verdicts, tip, accepted set, work, links) to C01
+        label = "C07" if i in ok_nostream else "C01"
+        problem = t["final"].get("problem") or ""
+        why = ("concurrent submissions: no order of the recorded calls is a behaviour of HeaderChain with the recorded "
+               "verdicts and final state" if label == "C01" else
+               "concurrent submissions: the chain the subscriber reconstructs is not the reported chain")
+        if problem:
+            why += " (" + problem + ")"
+        if label != prop:
+            other += 1
+            continue
+        f = match_finding(prop, why)
+        if f:
+            res.add_known(f, why)
+            continue
+        res.violation("%s [%s mode, trace %d, pool parent=%s work=%s, final tip %s chain %s]" % (
+            why, "stall" if t.get("stall") else "plain", t["id"], t["parent"], t["work"], t["final"]["tip"], t["final"]["chain"]),
+            {"engine": "hdrc", "seed": sd, "trace": t})
+    res.sample({"concurrent_trace": json.loads(lines[sd % len(lines)])})
+    return {"traces": len(lines), "with_overlapping_calls": overlaps, "linearized": len(ok),
+            "attributed_to_other_property": other, "tlc_states": st["distinct"],
+            "modes": "plain: fresh repository per run, subscriber reading with small delays; stall: subscriber 10000 headers "
+                     "behind (channel full), 60 rounds per repository, reconstruction compared after the last round"}
 
 
 def validate_locators(scratch, files, res):
